@@ -1467,6 +1467,42 @@ pub mod verif {
         unsafe { super::ffi::list_get(out.cast(), erased.clone(), idx) }
     }
 
+    /// A `List<u64>` in the state "length == capacity" holding `vals`, built
+    /// directly instead of by `vals.len()` pushes. Only lengths that are
+    /// growth boundaries (4, 8, 16, ..) are accepted, because only those are
+    /// states a sequence of pushes reaches.
+    pub fn full_u64_list(vals: &[u64]) -> List<u64> {
+        let list: List<u64> = List::new();
+        {
+            // SAFETY: List<T> is a transparent wrapper around ErasedList
+            let erased: &super::ErasedList = unsafe {
+                &*(&list as *const List<u64> as *const super::ErasedList)
+            };
+            let mut raw = erased.0.lock().unwrap();
+            assert!(raw.capacity == 0 && raw.len == 0);
+            assert!(
+                !vals.is_empty()
+                    && super::compute_capacity(8, vals.len()) == vals.len()
+            );
+            // SAFETY: the layout is that of u64 and the capacity is not zero
+            let ptr = unsafe {
+                super::alloc_array(raw.vtable.layout(), vals.len())
+            };
+            // SAFETY: the allocation holds `vals.len()` u64 values
+            unsafe {
+                std::ptr::copy_nonoverlapping(
+                    vals.as_ptr().cast::<u8>(),
+                    ptr.as_ptr().cast::<u8>(),
+                    vals.len() * 8,
+                )
+            };
+            raw.ptr = ptr;
+            raw.len = vals.len();
+            raw.capacity = vals.len();
+        }
+        list
+    }
+
     /// `ErasedList == ErasedList` (what the script-side `==` calls) on typed
     /// lists
     pub fn erased_eq<T: Value>(a: &List<T>, b: &List<T>) -> bool {
